@@ -258,6 +258,11 @@ def _any(xs):
     return z3.Or(*zs) if zs else False
 
 
+def _simp(t):
+    """z3's own equivalence-preserving simplifier (removes the 0/1 index arithmetic of the module wrappers)."""
+    return z3.simplify(t) if sc.isz(t) else t
+
+
 def _shape_class(shape):
     x, y, z = shape
     if z == 1:
@@ -290,6 +295,19 @@ def _validate(c, tr, fn, shape, rng, post=lambda o: o):
         want = post(fn(jnp.asarray(x)))
         for g, w in zip(jax.tree_util.tree_leaves(got, is_leaf=jx.is_obj), jax.tree_util.tree_leaves(want)):
             c.validate(jx.to_numeric(g).astype(np.float64), np.asarray(w).astype(np.float64), "clean-up on a random design")
+
+
+def _prove_upper(c, name, cell, hint_cell, full_cell, replay, key):
+    """obligation  cell => full_cell  ("only connected cells").  ``full_cell`` is the (#cells-1)-step iterate of the oracle;
+    ``hint_cell`` is an earlier iterate of the same monotone chain (R_k => R_{k+1} holds by construction of reach_sym), so
+    discharging the much shallower  cell => hint_cell  discharges the obligation.  Only if that fails is the full query
+    asked (and only its witness is ever replayed / reported)."""
+    snap = (c.obligations, c.discharged, c.trivial, len(c.inconclusive), len(c.violations), len(c.samples))
+    if hint_cell is not full_cell and c.prove(name, z3.Implies(sc.toz(cell), sc.toz(hint_cell)), (), None, key):
+        return True
+    c.obligations, c.discharged, c.trivial = snap[0], snap[1], snap[2]
+    del c.inconclusive[snap[3]:], c.violations[snap[4]:], c.samples[snap[5]:]
+    return c.prove(name, z3.Implies(sc.toz(cell), sc.toz(full_cell)), (), replay, key)
 
 
 # ------------------------------------------------------------------------------------------------ flood-fill cases
@@ -327,18 +345,22 @@ def _flood_case(c, case, what, fn, seed, invert):
                                          wrongly_kept=int((got & ~want).sum()), wrongly_dropped=int((~got & want).sum()))
         return replay
 
-    for k, o in enumerate(outs):
-        tag = what if k == 0 else f"{what}/compute_polymer_connection"
-        rp = replay_for(k)
+    o, rp = outs[0], replay_for(0)
+    hint = hist[min(3 * n_sweeps, N - 1)]
+    for idx in np.ndindex(*shape):
+        _prove_upper(c, f"{what}:sound{list(idx)}", o[idx], hint[idx], full[idx], rp, f"{what}:keeps_unconnected")
+    kdef = f"{what}:one_layer_all_removed" if (cls == "one_layer" and not invert) else None
+    for idx in np.ndindex(*shape):
+        c.prove(f"{what}:near{list(idx)}", z3.Implies(sc.toz(near[idx]), sc.toz(o[idx])), (), rp,
+                key=kdef or f"{what}:drops_connected_within_n_steps")
+    if kdef is None:
+        c.prove(f"{what}:complete", _all(z3.Implies(sc.toz(full[idx]), sc.toz(o[idx])) for idx in np.ndindex(*shape)), (), rp,
+                key=f"{what}:too_few_sweeps")
+    for k in range(1, len(outs)):
+        # compute_polymer_connection itself (second output of the traced function) marks exactly the kept cells
         for idx in np.ndindex(*shape):
-            c.prove(f"{tag}:sound{list(idx)}", z3.Implies(sc.toz(o[idx]), sc.toz(full[idx])), (), rp, key=f"{tag}:keeps_unconnected")
-        kdef = f"{tag}:one_layer_all_removed" if (cls == "one_layer" and not invert) else None
-        for idx in np.ndindex(*shape):
-            c.prove(f"{tag}:near{list(idx)}", z3.Implies(sc.toz(near[idx]), sc.toz(o[idx])), (), rp,
-                    key=kdef or f"{tag}:drops_connected_within_n_steps")
-        if kdef is None:
-            c.prove(f"{tag}:complete", _all(z3.Implies(sc.toz(full[idx]), sc.toz(o[idx])) for idx in np.ndindex(*shape)), (), rp,
-                    key=f"{tag}:too_few_sweeps")
+            c.prove(f"compute_polymer_connection==kept{list(idx)}", sc.toz(outs[k][idx]) == sc.toz(o[idx]), (), replay_for(k),
+                    key="compute_polymer_connection:differs_from_kept_material")
     o = outs[0]
     # vacuity twins: the operation can remove something and can keep something away from the seed cells
     c.witness("some candidate cell is dropped", _any(z3.And(sc.toz(mask[idx]), z3.Not(sc.toz(full[idx]))) for idx in np.ndindex(*shape))
@@ -355,14 +377,14 @@ def _rm_both(m):
 
 
 # ------------------------------------------------------------------------------------------------ connect cases
-def _feasibility(c, case, what, fn, to_material, make_input, m, replay_design):
+def _feasibility(c, case, what, fn, to_material, make_input, m, replay_design, dtypes=None):
     """output design O = to_material(fn(input)): no floating material, no enclosed background."""
     shape = tuple(case["shape"])
     N = int(np.prod(shape))
     t0 = time.time()
     it = BoolInterp()
     inp = make_input(m)
-    out, tr = jx.call(fn, inp, interp=it, dtypes=None)
+    out, tr = jx.call(fn, inp, interp=it, dtypes=dtypes)
     c.interp_s += time.time() - t0
     O = to_material(out)
     matO = np.empty(shape, dtype=object)
@@ -370,8 +392,10 @@ def _feasibility(c, case, what, fn, to_material, make_input, m, replay_design):
     for idx in np.ndindex(*shape):
         matO[idx] = O[idx]
         airO[idx] = sc.not_(O[idx])
-    RO = reach_sym(matO, _seed_bottom(shape), N - 1)[-1]
-    AO = reach_sym(airO, _seed_sides_top(shape), N - 1)[-1]
+    hR = reach_sym(matO, _seed_bottom(shape), N - 1)
+    hA = reach_sym(airO, _seed_sides_top(shape), N - 1)
+    RO, AO = hR[-1], hA[-1]
+    kh = min(3 * max(shape), N - 1)
 
     def replay(model):
         d = model_array(model, m).astype(bool)
@@ -383,9 +407,9 @@ def _feasibility(c, case, what, fn, to_material, make_input, m, replay_design):
                                                             floating_material=int(floating.sum()), enclosed_background=int(enclosed.sum()))
 
     for idx in np.ndindex(*shape):
-        c.prove(f"{what}:no_floating{list(idx)}", z3.Implies(sc.toz(matO[idx]), sc.toz(RO[idx])), (), replay, key=f"{what}:floating_material")
+        _prove_upper(c, f"{what}:no_floating{list(idx)}", matO[idx], hR[kh][idx], RO[idx], replay, f"{what}:floating_material")
     for idx in np.ndindex(*shape):
-        c.prove(f"{what}:no_enclosed{list(idx)}", z3.Implies(sc.toz(airO[idx]), sc.toz(AO[idx])), (), replay, key=f"{what}:enclosed_background")
+        _prove_upper(c, f"{what}:no_enclosed{list(idx)}", airO[idx], hA[kh][idx], AO[idx], replay, f"{what}:enclosed_background")
     c.extra["eqns"] = tr.n_eqns
     c.bounds.update(shape=list(shape), oracle_iterations=N - 1)
     return O, tr
@@ -420,7 +444,7 @@ def _module(cls, shape, bg, **kw):
 def _idx_input(m, bg):
     p = np.empty(m.shape, dtype=object)
     for idx in np.ndindex(*m.shape):
-        p[idx] = z3.If(m[idx], z3.IntVal(1 - bg), z3.IntVal(bg))
+        p[idx] = z3.If(m[idx], z3.RealVal(1 - bg), z3.RealVal(bg))  # Real-sorted like every interpreter constant (no to_real noise)
     return p
 
 
@@ -452,11 +476,11 @@ def _module_remove(c, case):
     what = "RemoveFloatingMaterial"
     for idx in np.ndindex(*shape):
         o = out[idx]
-        is_mat, is_bg = sc.eq(o, 1 - bg), sc.eq(o, bg)
+        is_mat, is_bg = _simp(sc.eq(o, 1 - bg)), _simp(sc.eq(o, bg))
         c.prove(f"{what}:index{list(idx)}", sc.or_(is_mat, is_bg), (), replay, key=f"{what}:output_not_a_material_index")
         c.prove(f"{what}:sound{list(idx)}", z3.Implies(sc.toz(is_mat), sc.toz(full[idx])), (), replay, key=f"{what}:keeps_unconnected")
         c.prove(f"{what}:near{list(idx)}", z3.Implies(sc.toz(near[idx]), sc.toz(is_mat)), (), replay, key=f"{what}:drops_connected_within_n_steps")
-    c.prove(f"{what}:complete", _all(z3.Implies(sc.toz(full[idx]), sc.toz(sc.eq(out[idx], 1 - bg))) for idx in np.ndindex(*shape)), (), replay,
+    c.prove(f"{what}:complete", _all(z3.Implies(sc.toz(full[idx]), sc.toz(_simp(sc.eq(out[idx], 1 - bg)))) for idx in np.ndindex(*shape)), (), replay,
             key=f"{what}:too_few_sweeps")
     c.witness("some material is dropped", _any(z3.And(m[idx], sc.toz(sc.eq(out[idx], bg))) for idx in np.ndindex(*shape)))
     c.witness("material above the bottom layer is kept", _any(sc.toz(sc.eq(out[idx], 1 - bg)) for idx in np.ndindex(*shape) if idx[2] > 0))
@@ -475,15 +499,14 @@ def _module_connect(c, case):
         out = jx.lift(out)
         O = np.empty(shape, dtype=object)
         for idx in np.ndindex(*shape):
-            O[idx] = sc.ne(out[idx], bg)
+            O[idx] = _simp(sc.ne(out[idx], bg))
         to_material.raw = out
         return O
 
     def run(d):
         return np.asarray(fn(jnp.asarray(np.where(d, 1 - bg, bg).astype(np.int32))))
 
-    # jx.call infers int32 for an all-Int object array
-    O, tr = _feasibility(c, case, what, fn, to_material, lambda m: _idx_input(m, bg), m, lambda d: run(d) != bg)
+    O, tr = _feasibility(c, case, what, fn, to_material, lambda m: _idx_input(m, bg), m, lambda d: run(d) != bg, dtypes={0: np.int32})
     raw = to_material.raw
     rng = np.random.default_rng(c.seed + 4)
     d0 = rng.random(shape) < 0.6
